@@ -193,9 +193,12 @@ class C16(core.Prop):
             env = core.impl_env({'FORML_HOME': str(tmp / 'home'), 'FORML_VERIF': '1', 'FORML_VERIF_TRACE': str(tmp / 'trace.jsonl')})
             proc = subprocess.run(['/venv/bin/python', '-W', 'ignore', '-m', 'harness.impl.c16', str(tmp / 'in.json'), str(tmp / 'out.json')],
                                   cwd=str(core.ROOT), env=env, capture_output=True, text=True, timeout=900)
-            if proc.returncode or not (tmp / 'out.json').exists():
+            if proc.returncode >= 0 and (proc.returncode or not (tmp / 'out.json').exists()):
                 return {'error': f'driver failed rc={proc.returncode}: {proc.stderr[-500:]}'}
-            return json.loads((tmp / 'out.json').read_text())
+            try:    # killed by a signal: an abort at interpreter teardown after the complete answer was written is not a failure
+                return json.loads((tmp / 'out.json').read_text())
+            except (OSError, ValueError):
+                return {'error': f'driver failed rc={proc.returncode}: {proc.stderr[-500:]}'}
         except subprocess.TimeoutExpired:
             return {'error': 'the engine did not answer the batch within 900 s'}
         finally:
